@@ -15,6 +15,7 @@ open Conv
 module L = Stdlib.List
 module S = Stdlib.String
 open Service
+open BinNums
 
 let sub_of_s x = match split ',' x with
   | [t; q] -> (bytes_of_hex t, n_of_string q)
@@ -78,6 +79,9 @@ type sc = {
   mutable stopcalls : int; mutable stoprets : int;
   mutable restart_pending : bool;               (* a Start after a Stop returned true; a `next` must follow *)
   mutable had_stop : bool;
+  mutable next_seen : bool;                     (* a supervisor round began since the last Start call *)
+  mutable late_cancel : (coq_N * string) list;  (* cancellations observed before the event that explains them was recorded *)
+  mutable late_ret : string option;             (* return of a blocked API call observed before the dispatcher's next record *)
 }
 
 let run path =
@@ -90,12 +94,34 @@ let run path =
     if c.alive then begin
       c.alive <- false; incr diffs;
       Printf.printf "%s\n" what end in
-  let feed c (line : string) (e : event) =
+  let rec feed c (line : string) (e : event) =
     if c.alive && c.mon then begin
       Hashtbl.replace classes (sup_name c.st.sp ^ "/" ^ api_name c.st.ap ^ "/" ^ ev_name e) ();
-      match step c.st e with
-      | Some s' -> c.st <- s'
-      | None ->
+      match step c.st e, e with
+      | Some s', _ ->
+        c.st <- s';
+        (* observations that commute with the record just consumed (see below) are retried *)
+        (match e with
+         | EFut _ -> ()
+         | _ ->
+           let lc = c.late_cancel in
+           c.late_cancel <- [];
+           L.iter (fun (n, l) -> match step c.st (EFut (n, OCancelled)) with
+                     | Some _ -> ()
+                     | None -> c.late_cancel <- (n, l) :: c.late_cancel) (L.rev lc);
+           (match e, c.late_ret with
+            | (EDispSend _ | EDispErr _), Some l -> c.late_ret <- None; feed c (l ^ " (deferred)") ECmdRet
+            | _ -> ()))
+      (* future.Store.Put cancels the future it replaces BEFORE the request reaches the connection, where it is
+         recorded: a watcher may report that cancellation first.  Kept until a later record explains it; if none
+         does, it is reported at the end of the scenario. *)
+      | None, EFut (n, OCancelled) when fut_get n c.st.futs = Some FPending ->
+        c.late_cancel <- (n, line) :: c.late_cancel
+      (* a caller blocked on the full queue returns as soon as the dispatcher has taken a command; the dispatcher's
+         request is recorded a moment later: the return is kept until that record *)
+      | None, ECmdRet when (match c.st.ap with ACmd (_, _, true) -> c.late_ret = None | _ -> false) ->
+        c.late_ret <- Some line
+      | None, _ ->
         (* classification of a disabled event: does it contradict a clause by itself? *)
         let clause = match e with
           | EResubSend (_, l, _) -> Some ("resub_set", "request=" ^ s_of_subs l ^ " expected=" ^ s_of_subs (resub_list c.st.subs))
@@ -118,7 +144,7 @@ let run path =
     | "scn" :: k :: rest ->
       let c = { k; name = "?"; mon = true; st = init (n_of_int 64); alive = true; nev = 0; issued_b = [];
                 resub_ids = []; conn = "0"; expect = []; peers = []; finals = []; stopcalls = 0; stoprets = 0;
-                restart_pending = false; had_stop = false } in
+                restart_pending = false; had_stop = false; next_seen = false; late_cancel = []; late_ret = None } in
       L.iter (fun w -> match split '=' w with
         | ["name"; v] -> c.name <- v
         | ["cap"; v] -> c.st <- init (n_of_string v)
@@ -130,9 +156,9 @@ let run path =
       c.nev <- c.nev + 1;
       let l = S.concat " " w in
       (match w with
-       | ["startcall"] -> feed c l EStartCall
+       | ["startcall"] -> c.next_seen <- false; feed c l EStartCall
        | ["startret"; b] ->
-         if bool_of_s b && c.had_stop then c.restart_pending <- true;
+         if bool_of_s b && c.had_stop && not c.next_seen then c.restart_pending <- true;
          feed c l (EStartRet (bool_of_s b))
        | ["stopcall"; b] -> c.stopcalls <- c.stopcalls + 1; feed c l (EStopCall (bool_of_s b))
        | ["stopret"; b] ->
@@ -150,7 +176,7 @@ let run path =
        | ["cmdret"; _] -> feed c l ECmdRet
        | ["qtimeout"; _] -> feed c l EQueueTimeout
        | ["backoff"] -> feed c l EBackoff
-       | ["next"] -> c.restart_pending <- false; feed c l ENext
+       | ["next"] -> c.restart_pending <- false; c.next_seen <- true; feed c l ENext
        | ["connfail"; r] -> feed c l (EConnFail (cfail_of_s r))
        | ["online"; b] ->
          if c.mon && c.alive then
@@ -180,7 +206,8 @@ let run path =
       incr cases;
       if c.mon then begin
         let fail cl txt = incr diffs; Printf.printf "propfail %s %s name=%s %s\n" c.k cl c.name txt in
-        let peers = L.rev c.peers in
+        (* connections are sequential; the peers' goroutines record concurrently: order by connection, then arrival *)
+        let peers = L.stable_sort (fun (a, _, _) (b, _, _) -> compare (int_of_string a) (int_of_string b)) (L.rev c.peers) in
         (* resub_set: the first request on every connection that came online with a non-empty set *)
         L.iter (fun (conn, exp) ->
           if exp <> [] then
@@ -196,6 +223,10 @@ let run path =
         if c.alive && not (ServiceSpec.fifo_ok seen (L.rev c.issued_b)) then
           fail "fifo" ("requests seen by the peers are not in issue order: " ^ S.concat " " (L.map s_of_body seen));
         (* futures: every watcher's final observation is the model's status *)
+        L.iter (fun (n, l) -> if c.alive then
+                   fail "futures" (Printf.sprintf "[%s] observed, but the model never cancels future %s (it has it %s)" l (string_of_n n)
+                                     (match fut_get n c.st.futs with Some m -> cause_name m | None -> "?"))) c.late_cancel;
+        if c.alive && c.late_ret <> None then begin incr diffs; Printf.printf "diff %s name=%s a blocked API call returned but the dispatcher never took a command\n" c.k c.name end;
         if c.alive then
           L.iter (fun (n, st) ->
             match fut_get (n_of_int n) c.st.futs with
